@@ -756,9 +756,9 @@ func (dht *FullRT) SearchValue(ctx context.Context, key string, opts ...routing.
 			return
 		}
 
-		ctx, cancel := context.WithTimeout(ctx, time.Second*5)
-		dht.updatePeerValues(ctx, key, best, updatePeers)
-		cancel()
+		// The corrective puts run in their own goroutines (each under its own timeout) and outlive this one: give
+		// them the instance's context, as IpfsDHT.SearchValue does, not one that is cancelled as soon as they start.
+		dht.updatePeerValues(dht.ctx, key, best, updatePeers)
 	}()
 
 	return out, nil
